@@ -374,9 +374,21 @@ pub fn gen_case(prop: &str, seed: u64, index: u64) -> (Case, usize) {
         let child = p.chance(1, 3);
         return (Case { xml, events, single, child, origin: format!("gen-finals prop={} seed={} index={}", prop, seed, index) }, gen_doc::count_states(&d));
     }
+    let use_history = match prop {
+        "C06" => index % 4 == 0 || index % 4 == 2,
+        "C01" | "C02" => index % 8 == 2,
+        _ => false,
+    };
+    if use_history {
+        let (d, events) = gen_doc::gen_history_doc(&mut p);
+        let xml = gen_doc::render(&d);
+        let single = p.chance(1, 2);
+        return (Case { xml, events, single, child: false, origin: format!("gen-history prop={} seed={} index={}", prop, seed, index) }, gen_doc::count_states(&d));
+    }
     // structural corner cases: half of the C01 / C02 / C06 cases
     let use_structural = match prop {
-        "C01" | "C02" | "C06" => index % 2 == 1,
+        "C01" | "C02" => index % 2 == 1,
+        "C06" => index % 4 == 1,
         "C03" | "C07" => index % 6 == 1,
         _ => false,
     };
